@@ -119,6 +119,8 @@ def draw(c, rng):
         if c["listin"]:
             inp["other"] = [f[:, rng.permutation(R)].copy() for f in ref]
     inp["fs"] = fs
+    if kind == "slices":
+        inp["rs"] = [_ints(rng, sh) for sh in c["rshapes"]]
     if op in ("cp_mode_dot", "tucker_mode_dot"):
         I = c["shape"][c["mode"]]
         if c["operand"] == "matrix":
@@ -130,6 +132,8 @@ def draw(c, rng):
 
 def to_json(c, inp):
     out = lf.inputs_json(c, inp)
+    if "rs" in inp:
+        out["rs"] = [jt(f) for f in inp["rs"]]
     if "m" in inp:
         out["m"] = jt(inp["m"])
     if "v" in inp:
@@ -144,6 +148,8 @@ def to_json(c, inp):
 def from_json(c, j):
     inp = lf.inputs_from_json(c, j)
     arr = lambda t: lf.as_float(t["data"]).reshape(t["shape"])
+    if "rs" in j:
+        inp["rs"] = [arr(f) for f in j["rs"]]
     if "m" in j:
         inp["m"] = arr(j["m"])
     if "v" in j:
@@ -325,6 +331,13 @@ def _execute(c, inp):
             w, fs, ps = res
             _dense(out, "p2", (w, fs, ps))
             _orth(out, ps)
+        elif op == "svd_compress":
+            slices = [L @ Rm for L, Rm in zip(inp["fs"], inp["rs"])]
+            out["slices"] = [jt(x) for x in slices]
+            thr = 0.0 if c["thr"] == 0 else 1e-6
+            mr = None if c["maxrank"] == 0 else int(c["maxrank"])
+            scores, loadings = preprocessing.svd_compress_tensor_slices([x.copy() for x in slices], compression_threshold=thr, max_rank=mr)
+            out["recon"] = [jq(S if U is None else np.asarray(U) @ np.asarray(S), DENSE_SCALE) for S, U in zip(scores, loadings)]
         elif op == "svd_roundtrip":
             w, (A, B, C), ps = lf.fresh("p2", inp)
             slices = [(P @ B * ((w if w is not None else 1) * A[i])) @ C.T for i, P in enumerate(ps)]
